@@ -112,14 +112,14 @@ def directed(tier):
     ops = [{'mem': 0, 'op': 'write', 'writes': [{'addr': 5, 'data': data, 'flush': False, 'progress': False}]},
            {'mem': 0, 'op': 'read', 'addr': 3, 'len': 55}]
     n = 0
-    for k in range(0, 13):
+    for k in range(0, 13 if tier == 'quick' else 30):
         for kind in ('drop-driver', 'drop-sender'):
             n += 1
             plans.append({'seed': 930000 + n, 'scenario': 'directed-drop-after-k', 'device': dev, 'ops': ops,
                           'knobs': {'line_mean': 0, 'p_stall': 0.0, 'needs_resending': True, 'lat': (0.001, 0.001),
                                     'rates': {}},
                           'cut': {'kind': kind, 'after_mem_replies': k}, 'reconnect': True})
-    for k in range(0, 7):
+    for k in range(0, 7 if tier == 'quick' else 16):
         n += 1
         plans.append({'seed': 930000 + n, 'scenario': 'directed-dup-kth-reply', 'device': dev, 'ops': ops,
                       'knobs': {'line_mean': 0, 'p_stall': 0.0, 'needs_resending': True, 'lat': (0.001, 0.001), 'rates': {}},
